@@ -12,9 +12,9 @@ from sv import core
 
 PROPERTY = "C11"
 GEN = ["Murphy"]
-PROPS = ["ScoresVerif/Props/C11.lean"]
+PROPS = ["ScoresVerif/Props/C11.lean", "ScoresVerif/Props/C11Bridge.lean"]
 DRIVER_DEPS = ["ScoresVerif.Driver.C11"]
-AUDIT_FILES = ["ScoresVerif/Lemmas/Murphy.lean", "ScoresVerif/Spec/Murphy.lean", "ScoresVerif/Model/Murphy.lean"]
+AUDIT_FILES = ["ScoresVerif/Lemmas/Bridge.lean", "ScoresVerif/Lemmas/Murphy.lean", "ScoresVerif/Spec/Murphy.lean", "ScoresVerif/Model/Murphy.lean"]
 LEVEL = "proof"
 TRUSTED = ["hand model of broadcast_and_match_nan / mean(skipna) / np.unique / np.concatenate in Model/Murphy.lean "
            "(tied by correspondence only)",
